@@ -326,11 +326,17 @@ impl FailSafe {
         Ok(())
     }
 
-    pub fn disarm<'a>(
-        &mut self,
+    /// Check that `disarm` would succeed for the given session, without changing anything.
+    ///
+    /// Returns the index of the fabric that `disarm` would hand back. Callers that have to make
+    /// the commissioned state durable use this first, persist, and call `disarm` only once
+    /// everything is stored - so that a failing store leaves the fail-safe armed and the
+    /// commissioning can still be rolled back (or `CommissioningComplete` retried).
+    pub fn check_disarm(
+        &self,
         session_mode: &SessionMode,
-        fabrics: &'a mut Fabrics,
-    ) -> Result<&'a mut Fabric, Error> {
+        fabrics: &Fabrics,
+    ) -> Result<NonZeroU8, Error> {
         if matches!(self.state, State::Idle) {
             error!("Received Fail-Safe Disarm without it being armed");
             return Err(ErrorCode::FailSafeRequired.into());
@@ -345,6 +351,18 @@ impl FailSafe {
             NocFlags::empty(),
             NocFlags::empty(),
         )?;
+
+        fabrics.fabric(fab_idx)?;
+
+        Ok(fab_idx)
+    }
+
+    pub fn disarm<'a>(
+        &mut self,
+        session_mode: &SessionMode,
+        fabrics: &'a mut Fabrics,
+    ) -> Result<&'a mut Fabric, Error> {
+        let fab_idx = self.check_disarm(session_mode, fabrics)?;
 
         let fabric = fabrics.fabric_mut(fab_idx)?;
 
